@@ -51,8 +51,11 @@ IntHelpers == {"get_int", "get_uint8", "get_uint16", "get_uint32", "get_uint48"}
 \* texts whose reading as "an unsigned integer" the docstrings do not decide
 Lenient(v) == \/ \E i \in 1..Len(v) : v[i] \in {43, 45, 95, 9, 10, 11, 12, 13, 32} \/ v[i] > 127
               \/ (Len(v) >= 2 /\ v[1] = 48 /\ v[2] \in {120, 88, 111, 79, 98, 66})
+\* a minus sign and a non-zero number: certainly not an UNSIGNED integer
+Negative(v, base) == Len(v) >= 2 /\ v[1] = 45 /\ AllDigits(Tail(v), base) /\ Canon(Tail(v)) # <<0>>
 JudgeInt(h, base, v) ==
-    IF AllDigits(v, base) THEN (IF h = "get_int" \/ Leq(Canon(v), MaxOf(h, base)) THEN <<"ok", Canon(v)>> ELSE <<"err">>)
+    IF Negative(v, base) THEN <<"err">>
+    ELSE IF AllDigits(v, base) THEN (IF h = "get_int" \/ Leq(Canon(v), MaxOf(h, base)) THEN <<"ok", Canon(v)>> ELSE <<"err">>)
     ELSE IF Lenient(v) THEN <<"free">> ELSE <<"err">>
 
 \* ------------------------------------------------------------------ TTL and name texts (small, see X02 / C01)
